@@ -103,3 +103,11 @@ check("C21", "exploration", "online trace monitor over cycle-group hook events w
       "ListObjects runs on the streaming pipeline (4 tunings) over directed models with cycle groups of 1-4 members (recursive userset / TTU chains of length 3-14 closed into tuple cycles, mutual recursion, mixed cycles) and generated cases, repeated under seeded yields; per status pool the monitor checks: in-flight count never negative, reaches zero at most once, never incremented from zero after the first join, quiescence latch only after every member signalled ready, no cleanup before quiescence, every member cleans up exactly once; the request must return and its output must equal the reference set. Evidence reports distinct event-order signatures observed; interleavings are sampled, not enumerated.",
       "Invariants chosen to be sound under the hooks' emission points; hang = no return 25 s after the 5 s deadline AND goroutines parked in the cycle wait / DrainSender in the dump.",
       "DESIGN.md §5 C21")
+check("C09", "exploration", "fault-injection history monitor: client deadlines / cancellations landing inside delayed datastore reads on iterator-cache servers, then reference-model judgement of every completed answer; counting cache and datastore wrappers; -race",
+      "Per seeded case and server (v1 iterator caches + shared iterators, max cached result size 3, weighted-graph cached reader, sqlite with context propagation) a fault phase issues the sampled Check / ListObjects requests concurrently with 1-8 ms client deadlines while the observing datastore delays every iterator step; afterwards every request is issued twice without faults and must satisfy the C01 acceptance relation, so a partially read result served later as complete is visible as a wrong answer.",
+      "Faults are injected at the datastore boundary, not at arbitrary instructions; reference semantics harness/ref.",
+      "DESIGN.md §5 C09")
+check("C11", "exploration", "offline/online history checker over cache-controller hook events on a logical clock + reference model on the state after the write",
+      "On servers with the cache controller plus exactly one of {query cache, check iterator cache}: warm requests, a write (1-2 deletes, sometimes 60 extra changes = more than one changelog page), a second group of requests sharing sub-problems issued while invalidation is pending, then — once a run that STARTED after the write's acknowledgement has ENDED (hook H5) — every request again; after that point answers must equal the reference on the current state.",
+      "5 ms pacing sleeps keep datastore timestamps ordered like logical events (the oracle uses event order only); reference semantics harness/ref.",
+      "DESIGN.md §5 C11")
